@@ -15,6 +15,7 @@ package vs
 
 import (
 	"fmt"
+	"net"
 	"reflect"
 	"runtime"
 	"sort"
@@ -1263,4 +1264,15 @@ func (o *Once) Do(f func()) {
 	o.running = true
 	defer func() { o.done = true; o.running = false }()
 	f()
+}
+
+// DialHook, when set, answers the net.Dial calls that the E-D profile rewrites to vs.Dial (backend/remote
+// Factory.Create): the harness hands out one end of an in-memory connection pair instead of a TCP socket.
+var DialHook func(network, addr string) (net.Conn, error)
+
+func Dial(orig func(string, string) (net.Conn, error), network, addr string) (net.Conn, error) {
+	if DialHook != nil {
+		return DialHook(network, addr)
+	}
+	return orig(network, addr)
 }
